@@ -18,6 +18,8 @@ func init() {
 		Assumptions: []string{"timestamps are normalised (0 <= nanos < 1e9)"},
 		Run:         runC18,
 		Controls: []Control{
+			{Name: "revert-F48-empty-period-intersects", File: "pkg/time/period.go", Old: "\tif p1lower.CompareTo(p1upper) >= 0 || p2lower.CompareTo(p2upper) >= 0 {\n\t\treturn false\n\t}\n", New: "", Expect: "R18.3"},
+			{Name: "only-first-period-checked-for-emptiness", File: "pkg/time/period.go", Old: "\tif p1lower.CompareTo(p1upper) >= 0 || p2lower.CompareTo(p2upper) >= 0 {", New: "\tif p1lower.CompareTo(p1upper) >= 0 {", Expect: "R18.3"},
 			{Name: "activeat-turns-away-zero", File: "pkg/trait/electricpb/segmentpb/active.go", Old: "\tif d < 0 {\n\t\treturn d, 0\n\t}", New: "\tif d <= 0 {\n\t\treturn d, 0\n\t}", Expect: "R18.7"},
 			{Name: "zero-length-read-as-endless", File: "pkg/trait/electricpb/segmentpb/sum.go", Old: "\t\t\tif segment.Length == nil {\n\t\t\t\tbreak", New: "\t\t\tif segment.GetLength().AsDuration() == 0 {\n\t\t\t\tbreak", Expect: "R18.6"},
 			{Name: "comparator-returns-two", File: "pkg/time/timestamp.go", Old: "\tcase t1.Seconds > t2.Seconds:\n\t\treturn 1", New: "\tcase t1.Seconds > t2.Seconds:\n\t\treturn 2", Expect: "R18.1"},
@@ -427,6 +429,17 @@ func r183(c *an.Ctx) {
 		}
 		a1 := "(call call pkg/time.cutPeriod(p1)#0.CompareTo(call pkg/time.cutPeriod(p2)#1) < " + bound + ")"
 		a2 := "(call call pkg/time.cutPeriod(p2)#0.CompareTo(call pkg/time.cutPeriod(p1)#1) < " + bound + ")"
+		atoms := []string{a1, a2}
+		if t.strict {
+			// a non-empty common part needs non-empty periods: lower < upper for each of them as well
+			atoms = append(atoms,
+				"(call call pkg/time.cutPeriod(p1)#0.CompareTo(call pkg/time.cutPeriod(p1)#1) < 0)",
+				"(call call pkg/time.cutPeriod(p2)#0.CompareTo(call pkg/time.cutPeriod(p2)#1) < 0)")
+		}
+		isAtom := map[string]bool{}
+		for _, a := range atoms {
+			isAtom[a] = true
+		}
 		nConj := 0
 		for _, l := range leaves {
 			if l.Undec != "" || l.Panics {
@@ -447,7 +460,7 @@ func r183(c *an.Ctx) {
 				if a == "p1==nil" || a == "p2==nil" {
 					continue
 				}
-				if a != a1 && a != a2 {
+				if !isAtom[a] {
 					known = false
 					why = "the verdict depends on " + a + ", not on lower1 " + op + " upper2 and lower2 " + op + " upper1"
 				}
@@ -457,23 +470,44 @@ func r183(c *an.Ctx) {
 				okConj = false
 				continue
 			}
-			// result: constant or the remaining atom
-			env1 := map[string]bool{}
-			for _, x1 := range []bool{true, false} {
-				for _, x2 := range []bool{true, false} {
-					if v, has := env[a1]; has && v != x1 {
-						continue
+			// on every completion of the path's assignment the result is the conjunction of all the atoms
+			for mask := 0; mask < 1<<len(atoms); mask++ {
+				env1 := map[string]bool{}
+				consistent, all := true, true
+				for i, a := range atoms {
+					val := mask&(1<<i) != 0
+					if v, has := env[a]; has && v != val {
+						consistent = false
 					}
-					if v, has := env[a2]; has && v != x2 {
-						continue
-					}
-					env1[a1], env1[a2] = x1, x2
-					got, okb := evalBool(l.Returns[0].S, env1)
-					if !okb || got != (x1 && x2) {
-						okConj = false
-						why = fmt.Sprintf("with %s=%v and %s=%v the result is %s", a1, x1, a2, x2, l.Returns[0].S)
-					}
+					env1[a] = val
+					all = all && val
 				}
+				if !consistent {
+					continue
+				}
+				got, okb := evalBool(l.Returns[0].S, env1)
+				if !okb || got != all {
+					okConj = false
+					why = fmt.Sprintf("with %v the result is %s", env1, l.Returns[0].S)
+				}
+			}
+		}
+		// each atom decides on some path
+		seen := map[string]bool{}
+		for _, l := range leaves {
+			for a := range l.AssignM {
+				seen[a] = true
+			}
+			for _, a := range atoms {
+				if strings.Contains(l.Returns[0].S, a) {
+					seen[a] = true
+				}
+			}
+		}
+		for _, a := range atoms {
+			if !seen[a] {
+				okConj = false
+				why = "the verdict never depends on " + a + " (for Intersect: an empty or inverted period encloses no non-empty period, so it intersects nothing)"
 			}
 		}
 		kind := "non-strict (touching periods are connected)"
